@@ -166,25 +166,40 @@ fn variant_name(dbg: &str) -> String {
     dbg.chars().take_while(|c| c.is_alphanumeric() || *c == '_').collect()
 }
 
-fn dump_locale(ns: &str, locale: &leptos_i18n_parser::parse_locales::locale::Locale, prefix: &str, top: &str, o: &mut dyn Write) {
-    for (k, v) in &locale.keys {
-        let path = if prefix.is_empty() { k.name.to_string() } else { format!("{}.{}", prefix, k.name) };
-        match v {
-            ParsedValue::Subkeys(Some(sub)) => dump_locale(ns, sub, &path, top, o),
-            ParsedValue::Subkeys(None) => writeln!(o, "V\t{}\t{}\t{}\tSUBKEYS_NONE", ns, top, path).unwrap(),
-            ParsedValue::Default => writeln!(o, "V\t{}\t{}\t{}\tDEFAULT", ns, top, path).unwrap(),
-            v => {
-                let mut out = String::new();
-                let mut has_fk = false;
-                if ppv(v, &mut out, &mut has_fk) {
-                    writeln!(o, "V\t{}\t{}\t{}\t{}", ns, top, path, out).unwrap();
-                } else {
-                    writeln!(o, "V\t{}\t{}\t{}\tOTHER {:?}", ns, top, path, v).unwrap();
+fn dump_level(
+    ns: &str,
+    locales: &[leptos_i18n_parser::parse_locales::locale::Locale],
+    keys: &leptos_i18n_parser::parse_locales::locale::BuildersKeysInner,
+    prefix: &str,
+    o: &mut dyn Write,
+) {
+    use leptos_i18n_parser::parse_locales::locale::LocaleValue;
+    for locale in locales {
+        let top = &locale.top_locale_name.name;
+        for (k, v) in &locale.keys {
+            let path = if prefix.is_empty() { k.name.to_string() } else { format!("{}.{}", prefix, k.name) };
+            match v {
+                ParsedValue::Subkeys(_) => {}
+                ParsedValue::Default => writeln!(o, "V\t{}\t{}\t{}\tDEFAULT", ns, top, path).unwrap(),
+                v => {
+                    let mut out = String::new();
+                    let mut has_fk = false;
+                    if ppv(v, &mut out, &mut has_fk) {
+                        writeln!(o, "V\t{}\t{}\t{}\t{}", ns, top, path, out).unwrap();
+                    } else {
+                        writeln!(o, "V\t{}\t{}\t{}\tOTHER {:?}", ns, top, path, v).unwrap();
+                    }
                 }
             }
         }
+        writeln!(o, "S\t{}\t{}\t{}\t{}\t{}", ns, top, prefix, locale.strings.len(), locale.top_locale_string_count).unwrap();
     }
-    writeln!(o, "S\t{}\t{}\t{}\t{}", ns, top, prefix, locale.strings.len()).unwrap();
+    for (k, lv) in &keys.0 {
+        if let LocaleValue::Subkeys { locales, keys } = lv {
+            let path = if prefix.is_empty() { k.name.to_string() } else { format!("{}.{}", prefix, k.name) };
+            dump_level(ns, locales, keys, &path, o);
+        }
+    }
 }
 
 /// one project directory per stdin line: the whole loading pipeline (parse_locales), final values per locale/key
@@ -201,12 +216,12 @@ fn mode_project() {
                 Ok((keys, warnings, _tracked)) => {
                     writeln!(buf, "RESULT\tok").unwrap();
                     match &keys {
-                        BuildersKeys::Locales { locales, .. } => {
-                            for l in locales { dump_locale("-", l, "", &l.name.name, &mut buf); }
-                        }
-                        BuildersKeys::NameSpaces { namespaces, .. } => {
+                        BuildersKeys::Locales { locales, keys } => dump_level("-", locales, keys, "", &mut buf),
+                        BuildersKeys::NameSpaces { namespaces, keys } => {
                             for ns in namespaces {
-                                for l in &ns.locales { dump_locale(&ns.key.name, l, "", &l.name.name, &mut buf); }
+                                if let Some(k) = keys.get(&ns.key) {
+                                    dump_level(&ns.key.name, &ns.locales, k, "", &mut buf);
+                                }
                             }
                         }
                     }
